@@ -159,7 +159,24 @@ type HarnessEvidence struct {
 
 // Finish prints KNOWN-FINDING lines, writes the harness part of the evidence,
 // and returns the process exit code.
+// InFlight records the case that is about to be run in a file that survives a
+// crash of the whole process (a panic in a goroutine of the library cannot be
+// recovered by the harness); Landed removes it. `check` turns a leftover file
+// into the replay of the violation.
+func (r *Run) InFlight(stream string, c interface{}, why string) {
+	rep := Replay{Property: r.Prop, Stream: stream, Seed: r.Seed, Tier: r.Tier, Case: c, Impl: "the harness process died while this case was running", PropertyFails: true, Why: why}
+	b, _ := json.MarshalIndent(rep, "", " ")
+	dir := filepath.Join(verifDir(), "replays")
+	os.MkdirAll(dir, 0o755)
+	os.WriteFile(filepath.Join(dir, r.Prop+"-inflight.json"), b, 0o644)
+}
+
+func (r *Run) Landed() {
+	os.Remove(filepath.Join(verifDir(), "replays", r.Prop+"-inflight.json"))
+}
+
 func (r *Run) Finish(out string) int {
+	r.Landed()
 	r.Mdl.Close()
 	ids := []string{}
 	for id := range r.KnownHits {
